@@ -362,3 +362,236 @@ def c20(run=None):
         fc.ob(q, 'calls_only_readonly_chunk_methods', not bad, f'{bad}')
     fc.no_unknown(plot_fns)
     return fc
+
+
+# ---------------------------------------------------------------------------------------------
+# C05 (frame part): no stage creates, loses or alters hits: only the three id columns of the private hit table are written
+# ---------------------------------------------------------------------------------------------
+ID_COLS = {'slice_id', 'group_id', 'layer_id'}
+
+
+def c05(run=None):
+    fc = FrameCheck()
+    an = fc.an
+    for q in chunk_methods(an):
+        s = fc.S(q)
+        cols = set(s.cols_written.get('self._data', set()))
+        bad = sorted(cols - ID_COLS)
+        fc.ob(q, 'hit_columns_untouched', not bad, f'writes column(s) {bad} of the hit table at {fc.sites(q, "self._data")}')
+        rebind = [h for _, h in fc.sites(q, 'self._data') if h == 'field assignment']
+        fc.ob(q, 'hit_table_not_replaced', not rebind, 'assigns self._data')
+    own = {f'{CH}.find_slices': 'slice_id', f'{CH}.find_groups': 'group_id', f'{CH}.find_layers': 'layer_id'}
+    for q, col in own.items():
+        cols = set(fc.S(q).cols_written.get('self._data', set()))
+        fc.ob(q, 'writes_only_its_own_id_column', cols <= {col}, f'{sorted(cols)}')
+    for q in (f'{CH}.metarize', f'{CH}.metar_msg', f'{CH}._setup_sligrolay_pdf', f'{CH}._calculate_cloud_amount',
+              f'{CH}._calculate_sligrolay_base_height', f'{CH}._add_sligrolay_information', f'{CH}.data_rescaled'):
+        fc.ob(q, 'hit_table_read_only', 'self._data' not in fc.S(q).writes, str(fc.sites(q, 'self._data')))
+    return fc
+
+
+# ---------------------------------------------------------------------------------------------
+# C08 (syntactic part): every refusal is an AmpycloudError
+# ---------------------------------------------------------------------------------------------
+
+def c08(run=None):
+    fc = FrameCheck()
+    an = fc.an
+    for q, fi in sorted(an.funcs.items()):
+        for n in ast.walk(fi.node):
+            if isinstance(n, ast.Raise):
+                e = n.exc
+                name = None
+                if isinstance(e, ast.Call):
+                    name = e.func.id if isinstance(e.func, ast.Name) else (e.func.attr if isinstance(e.func, ast.Attribute) else None)
+                elif isinstance(e, ast.Name):
+                    name = e.id
+                fc.ob(q, f'raise@{_ordinal(fi, n)}.is_AmpycloudError', name == 'AmpycloudError', f'line {n.lineno}: raises {name}')
+            if isinstance(n, ast.Try) and n.handlers:
+                fc.ob(q, f'no_swallowed_exceptions', False, f'line {n.lineno}: try/except present (effect on exception types unknown)', undecided=True)
+    return fc
+
+
+def _ordinal(fi, node):
+    k = 0
+    for n in ast.walk(fi.node):
+        if isinstance(n, ast.Raise):
+            if n is node:
+                return k
+            k += 1
+    return k
+
+
+# ---------------------------------------------------------------------------------------------
+# C10 (frame part): the hit table is never indexed by position; columns are selected by name
+# ---------------------------------------------------------------------------------------------
+
+def c10(run=None):
+    fc = FrameCheck()
+    an = fc.an
+    for q in chunk_methods(an, with_init=True) + ['ampycloud.utils.utils.check_data_consistency']:
+        fi = an.funcs[q]
+        bad = []
+        for n in ast.walk(fi.node):
+            if isinstance(n, ast.Attribute) and n.attr in ('iloc', 'iat', 'take') and _mentions_hit_table(n.value):
+                bad.append(f'line {n.lineno}: positional indexer .{n.attr} on the hit table')
+            if isinstance(n, ast.Subscript) and isinstance(n.value, ast.Attribute) and n.value.attr in ('values',) \
+                    and _mentions_hit_table(n.value.value) and not _has_name_list(n.value.value):
+                bad.append(f'line {n.lineno}: positional access into .values of the hit table')
+        fc.ob(q, 'no_positional_access_to_hit_table', not bad, '; '.join(bad))
+    s = fc.S(f'{AC}._cleanup_pdf')
+    fi = an.funcs[f'{AC}._cleanup_pdf']
+    resets = [n for n in ast.walk(fi.node) if isinstance(n, ast.Call) and isinstance(n.func, ast.Attribute) and n.func.attr == 'reset_index']
+    fc.ob(s.qualname, 'index_normalised_before_label_based_selection', bool(resets) and _before_first(fi, resets[0], ('loc', 'drop')),
+          'the private hit table keeps the caller\'s index labels while rows are selected by label')
+    return fc
+
+
+def _mentions_hit_table(node):
+    for n in ast.walk(node):
+        if isinstance(n, ast.Attribute) and n.attr in ('data', '_data') and isinstance(n.value, ast.Name) and n.value.id == 'self':
+            return True
+        if isinstance(n, ast.Name) and n.id == 'data':
+            return True
+    return False
+
+
+def _has_name_list(node):
+    return any(isinstance(n, ast.Subscript) and isinstance(n.slice, (ast.List, ast.Constant)) for n in ast.walk(node))
+
+
+def _before_first(fi, call, attrs):
+    for n in ast.walk(fi.node):
+        if isinstance(n, ast.Attribute) and n.attr in attrs and getattr(n, 'lineno', 10**9) < call.lineno:
+            return False
+    return True
+
+
+# ---------------------------------------------------------------------------------------------
+# C16 (frame part): ceilometer names flow only into label-independent operations
+# ---------------------------------------------------------------------------------------------
+CEILO_KEYS = ('ceilo', 'EXCLUDE_FOR_BASE_HEIGHT_CALC')
+NEUTRAL_CALLS = {'unique', 'isin', 'len', 'list', 'duplicated', 'merge', 'nunique', 'astype', 'deepcopy', 'warn', 'debug', 'info',
+                 'warning', 'error', 'items', 'keys', 'to_string'}
+
+
+def _ceilo_uses(fi):
+    """(lineno, snippet, ok) for every syntactic use of ceilometer names in the function"""
+    parents = {}
+    for n in ast.walk(fi.node):
+        for c in ast.iter_child_nodes(n):
+            parents[c] = n
+    tainted = set()
+    # loop / comprehension variables ranging over self.ceilos or the exclusion list
+    for n in ast.walk(fi.node):
+        it, tgt = None, None
+        if isinstance(n, ast.For):
+            it, tgt = n.iter, n.target
+        elif isinstance(n, ast.comprehension):
+            it, tgt = n.iter, n.target
+        elif isinstance(n, ast.Lambda):
+            par = parents.get(n)
+            if isinstance(par, ast.Call) and isinstance(par.func, ast.Attribute) and par.func.attr == 'apply' and _src(par.func.value).find("'ceilo'") >= 0:
+                tainted |= {a.arg for a in n.args.args}
+        if it is not None and (_src(it).find('ceilos') >= 0 or any(k in _src(it) for k in CEILO_KEYS)):
+            tainted |= {x.id for x in ast.walk(tgt) if isinstance(x, ast.Name)}
+    out = []
+    for n in ast.walk(fi.node):
+        is_src = False
+        if isinstance(n, ast.Constant) and n.value in CEILO_KEYS:
+            is_src = True
+        elif isinstance(n, ast.Attribute) and n.attr in ('ceilo', 'ceilos'):
+            is_src = True
+        elif isinstance(n, ast.Name) and n.id in tainted and isinstance(n.ctx, ast.Load):
+            is_src = True
+        if not is_src:
+            continue
+        ok, why = _neutral_context(n, parents)
+        out.append((getattr(n, 'lineno', 0), why, ok))
+    return out
+
+
+def _src(n):
+    try:
+        return ast.unparse(n)
+    except Exception:
+        return ''
+
+
+def _neutral_context(n, parents):
+    cur = n
+    while cur in parents:
+        par = parents[cur]
+        if isinstance(par, ast.Compare) and all(isinstance(o, (ast.Eq, ast.NotEq, ast.In, ast.NotIn)) for o in par.ops):
+            return True, 'equality / membership test'
+        if isinstance(par, ast.Call):
+            f = par.func
+            nm = f.attr if isinstance(f, ast.Attribute) else (f.id if isinstance(f, ast.Name) else '')
+            if cur is not f or nm in NEUTRAL_CALLS:
+                if nm in NEUTRAL_CALLS:
+                    return True, f'{nm}()'
+                if nm in ('sort_values', 'sorted', 'sort', 'argsort', 'index', 'searchsorted', 'startswith', 'endswith', 'find', 'replace',
+                          'lower', 'upper', 'split', 'join', 'max', 'min', 'groupby', 'rank', 'hash', 'ord', 'int', 'float'):
+                    return False, f'line {par.lineno}: ceilometer names reach {nm}(): depends on their spelling / order'
+        if isinstance(par, (ast.JoinedStr, ast.FormattedValue)):
+            return True, 'message text'
+        if isinstance(par, ast.Subscript) and cur is par.slice:
+            # column selection by name: df['ceilo'] / df[['dt', 'ceilo']] -- the *values* then flow on: keep climbing from the subscript
+            cur = par
+            continue
+        if isinstance(par, (ast.For, ast.comprehension)) and cur is getattr(par, 'iter', None):
+            return True, 'iterated (each name used through a tainted loop variable, checked separately)'
+        if isinstance(par, ast.Compare):
+            return False, f'line {par.lineno}: ordering comparison on ceilometer names'
+        if isinstance(par, ast.stmt):
+            if isinstance(par, ast.Assign) and isinstance(par.targets[0], ast.Name) and par.targets[0].id in ('cols', 'req_cols'):
+                return True, 'column-name list'
+            if isinstance(par, ast.Return):
+                return True, 'returned (property ceilos: callers checked)'
+            if isinstance(par, ast.Assign) and isinstance(par.targets[0], ast.Name) and _only_equality_joins(parents, par):
+                return True, 'column selection used only as an equality-join key (merge / duplicated)'
+            if isinstance(par, ast.Assign):
+                return True, 'assigned (mask / selection built from an equality test is checked at its construction)' if _src(par.value).find('==') >= 0 or _src(par.value).find('isin') >= 0 or _src(par.value).find('not in') >= 0 or _src(par.value).find('unique') >= 0 else (False, f'line {par.lineno}: ceilometer names stored without a label-independent operation')
+            return True, 'statement'
+        cur = par
+    return True, 'top'
+
+
+def _only_equality_joins(parents, assign):
+    """the assigned name is used only as receiver / argument of merge(), duplicated(), len(), to_string()"""
+    name = assign.targets[0].id
+    root = assign
+    while root in parents:
+        root = parents[root]
+    ok_any = False
+    for n in ast.walk(root):
+        if isinstance(n, ast.Name) and n.id == name and isinstance(n.ctx, ast.Load):
+            par = parents.get(n)
+            if isinstance(par, ast.Attribute) and par.attr in ('merge', 'duplicated', 'to_string'):
+                ok_any = True
+                continue
+            if isinstance(par, ast.Call) and ((isinstance(par.func, ast.Attribute) and par.func.attr in ('merge',)) or
+                                              (isinstance(par.func, ast.Name) and par.func.id == 'len')):
+                ok_any = True
+                continue
+            return False
+    return ok_any
+
+
+def c16(run=None):
+    fc = FrameCheck()
+    an = fc.an
+    for q in pp_functions(an):
+        uses = _ceilo_uses(an.funcs[q])
+        if not uses:
+            continue
+        bad = [why for (_, why, ok) in uses if ok is False or (isinstance(ok, tuple))]
+        bad += [w[1] for (_, w, ok) in uses if isinstance(w, tuple)]
+        fc.ob(q, 'ceilometer_names_used_as_labels_only', not bad, '; '.join(map(str, bad))[:400])
+    # names never reach the clustering inputs or the sort keys
+    for q in (f'{CH}.find_slices', f'{CH}.find_groups'):
+        fi = an.funcs[q]
+        bad = [f'line {n.lineno}' for n in ast.walk(fi.node) if isinstance(n, ast.Call) and isinstance(n.func, ast.Attribute)
+               and n.func.attr == 'clusterize' and "'ceilo'" in _src(n)]
+        fc.ob(q, 'clustering_input_has_no_names', not bad, str(bad))
+    return fc
